@@ -546,6 +546,7 @@ def check_contract(con: Contract, rep: Report, engine=None, crosscheck=True, kno
         if any(p.kind == "unsupported" for p in paths) or os.environ.get("VERIF_TIER_EFFECTIVE") == "thorough":
             bounded_standin(con, raw, combo, rep, label,
                             limit=20000 if os.environ.get("VERIF_TIER_EFFECTIVE") == "thorough" else 4000)
+        undecided_here = False
         for pi, p in enumerate(paths):
             s = p.run.sargs if hasattr(p.run, "sargs") else None
             rep.assumptions |= p.run.assumptions
@@ -609,9 +610,15 @@ def check_contract(con: Contract, rep: Report, engine=None, crosscheck=True, kno
                 ao.status, ao.backend, ao.time = ast_, abackend, round(adt, 4)
                 if ast_ == "refuted":
                     ao.model = model_to_dict(amodel)
+            if st == "undecided":
+                undecided_here = True
             if len(rep.samples) < 6 and st == "discharged":
                 rep.samples.append({"obligation": oid, "kind": o.kind, "clause": o.desc[:300], "verdict": st,
                                     "backend": backend, "seconds": round(dt, 4)})
+        if undecided_here and not any(p.kind == "unsupported" for p in paths) and os.environ.get("VERIF_TIER_EFFECTIVE") != "thorough":
+            # the solver gave up on a path: the obligation stays undecided, but a real failing input - if the boundary grid has
+            # one - is a violation in its own right (bounded stand-in, never counted as proved)
+            bounded_standin(con, raw, combo, rep, label)
     if con.cover:
         wanted = (["return"] if con.ret is not None else []) + list(con.exc.keys())
         for w in wanted:
